@@ -51,7 +51,7 @@ def long_entities_doc():
     """numeric entities beyond int()'s 4300-digit limit"""
     return ("&#" + "0" * 4400 + "65;&#x" + "0" * 4400 + "41;&#" + "9" * 4400 + ";&#" + "0" * 4299 + "66;" +
             "".join("a&#%s;b" % d for d in ("\u0661\u0662\u0663", "\u06f6\u06f5", "\uff10\uff16\uff10", "\u0966\u096f", "\u00b2", "\u2460", "1\u2070")) +
-            "&sup2;&frac12;&there4;&#x\uff21;")
+            "&sup2;&frac12;&there4;&#x\uff21;&#x100000041;&#4294967361;a&#x100000000041;b")
 
 
 def parse_case(seed):
